@@ -560,11 +560,11 @@ def run_warm_state_guarantees(case):
         # the caller's own state arrays are handed over, and handed over AGAIN for the second run (a restart script
         # keeps them): the supplied state must still be the supplied state afterwards
         kw_state = start_kwargs(ctx, state)
-        kw_snap = {k_: (v.copy() if isinstance(v, np.ndarray) else json.loads(json.dumps(v))) for k_, v in kw_state.items()}
+        kw_snap = {k_: (v.copy() if isinstance(v, np.ndarray) else json.loads(json.dumps(v, default=int))) for k_, v in kw_state.items()}
         r = call_kmedoids(ctx, sweeps, global_seed=case["g1"], kw=kw_state)
         for k_, v in kw_state.items():
             same = (v.dtype == kw_snap[k_].dtype and v.tobytes() == kw_snap[k_].tobytes()) if isinstance(v, np.ndarray) \
-                else json.loads(json.dumps(v)) == kw_snap[k_]
+                else json.loads(json.dumps(v, default=int)) == kw_snap[k_]
             require(same, "restart %d modified the caller's %s" % (leg + 1, k_),
                     before=np.asarray(kw_snap[k_]).tolist(), after=np.asarray(v).tolist())
         # KMedoids.fit has no seed parameter: its reproducibility is only claimed for an identical global RNG
